@@ -11,6 +11,7 @@ import (
 	"math/rand/v2"
 	"sort"
 	"strings"
+	"sync"
 	"sync/atomic"
 	"time"
 )
@@ -62,7 +63,7 @@ func runPipe(c *Ctx) {
 	p.sh.limit = 12
 	c.rep.Rule = "one case = one run of a real engine (1-8 producers mixing IngestRows/Flush/Start, Stop graceful / with deadline / with a late-AfterFunc context / never, " +
 		"buffered, drained, late-drained, abandoned and nil done channels, limit- and time-triggered flushes, delayed / failing / wedged stores, all row-data compressions; " +
-		"directed: drain-path answers, cleanup-fault pairs, stalls at every store call kind under busy / trickling / rowless producers, bursts against a full flush queue, trickles below MaxBufferedTime); " +
+		"directed: drain-path answers, cleanup-fault pairs, Flush calls and batches queued behind a blocked ingest actor, stalls at every store call kind under busy / trickling / rowless producers, bursts against a full flush queue, trickles below MaxBufferedTime); " +
 		"the hook + store + harness event log is replayed through Pipeline.step and the final state compared with acks received and rows visible. " +
 		"Non-trivial: >= 2 producers, or a Stop racing ingest, or a store fault or stall, or a limit- or ticker-triggered flush. Distinct by the label sequence of the log."
 
@@ -75,6 +76,9 @@ func runPipe(c *Ctx) {
 	if p.wants("C08") {
 		pDirectedD5(p)
 		pDirectedNoSilence(p)
+	}
+	if p.wants("C07") {
+		pDirectedFlushBehindFlush(p)
 	}
 	if p.wants("C05", "C06", "C07", "C08") {
 		n := c.pick(60, 1200)
@@ -441,6 +445,75 @@ func pDirectedDrainAnswers(p *pipeCtx) {
 		}
 		res := r.finish(3*time.Second, true)
 		p.emit(r, res, pEvalOpts{props: []string{"C05", "C08"}, nontrivial: true, kind: "directed-drain-answers"})
+	}
+}
+
+// Flush is a barrier for everything accepted before it was called, also when several Flush calls and batches
+// queue up behind an ingest actor that cannot move: flush 1 stalls in the store, flush 2 fills the flush queue,
+// flush 3 blocks the actor; then, strictly one after the other, Flush #1, batch D, Flush #2, batch E, Flush #3
+// enter (each caller on its own goroutine, the next one starts when the previous one's request is in the ingest
+// queue or a moment has passed); the store comes back, but the flush that carries D (and E) stalls again until
+// the Flush calls behind it had every chance to return. A visibility query runs the moment each nil arrives.
+func pDirectedFlushBehindFlush(p *pipeCtx) {
+	reps := p.c.pick(4, 12)
+	for v := 0; v < reps; v++ {
+		o := defaultOpts()
+		o.ICap = 8
+		o.MaxRows = 1
+		ctx := context.Background()
+		r := newPRun(p.c, fmt.Sprintf("flush-behind-flush-%d", v), o)
+		r.snapMax = 16
+		kind := []string{"CreateFile", "Write", "Close", "Update"}[v%4]
+		_, release := r.plan.wedgeAt(kind, 0)
+		// the flushes of A, B, C are CreateFile calls 0..2; D's is call 3, E's call 4
+		_, releaseD := r.plan.wedgeAt("CreateFile", 3)
+		_, releaseE := r.plan.wedgeAt("CreateFile", 4)
+		r.start()
+		for i := 0; i < 3; i++ {
+			r.ingest(ctx, "drain", simpleBatch(r, 1))
+		}
+		if !waitFor(func() bool { return r.hasEvent("fq.try", 3) }, 2*time.Second) {
+			p.c.dist("run_kind", "discarded-setup")
+			release()
+			releaseD()
+			releaseE()
+			r.stopWithDeadline(time.Second)
+			r.finish(time.Second, false)
+			continue
+		}
+		sent := 3
+		var flushes sync.WaitGroup
+		goFlush := func() {
+			flushes.Add(1)
+			r.goProducer(func() { defer flushes.Done(); r.flush(ctx) })
+			sent++
+			n := sent
+			waitFor(func() bool { return r.hasEvent("ingest.sent", n) }, 150*time.Millisecond)
+		}
+		goFlush()
+		r.ingest(ctx, "drain", simpleBatch(r, 1)) // D
+		sent++
+		goFlush()
+		if v%2 == 1 {
+			r.ingest(ctx, "buf", simpleBatch(r, 1)) // E
+			sent++
+			goFlush()
+		}
+		release()
+		// the Flush calls that may return before D's rows are durable get the time to do so
+		time.Sleep(time.Duration(60+p.c.intn(60)) * time.Millisecond)
+		releaseD()
+		time.Sleep(30 * time.Millisecond)
+		releaseE()
+		fdone := make(chan struct{})
+		go func() { flushes.Wait(); close(fdone) }()
+		select {
+		case <-fdone:
+		case <-time.After(10 * time.Second):
+		}
+		r.stopWithDeadline(20 * time.Second)
+		res := r.finish(3*time.Second, true)
+		p.emit(r, res, pEvalOpts{props: []string{"C07"}, nontrivial: true, kind: "directed-flush-behind-flush"})
 	}
 }
 
